@@ -30,6 +30,8 @@ def run(ctx, mode="single"):
             ext = ctx.gen("Gen_CondX", "Gen_CondX_single")
         else:
             ext = ctx.gen("Gen_CondX", "Gen_CondX_hist", simulate="num=%d" % (250 if ctx.quick else 4000), depth=16)
+            # ... and the enumerated scenarios with several conditions that share a data-function table
+            ext += [x for x in ctx.gen("Gen_CondX", "Gen_CondX_single") if sum(1 for o in x["ops"] if o["a"] == "con") >= 2]
     xtraces = ctx.drive("condx", ext, timeout=3000) if ext else []
     if xtraces:
         ctx.validate("Trace_CondX", xtraces, timeout=3000)
